@@ -368,6 +368,15 @@ func c08Rewrite(c *Ctx) {
 				delete(e2e, name)
 			}
 		}
+		// a websocket handshake (the backend in this script declines it with an ordinary response): Connection: Upgrade and
+		// Upgrade: websocket are passed on by the reverse proxy by design; everything else is as for any request
+		upgrade := method == "GET" && r.IntN(10) == 0
+		if upgrade {
+			hdrs = append(hdrs, hv{"Upgrade", "websocket"}, hv{"Sec-Websocket-Version", "13"})
+			e2e["Sec-Websocket-Version"] = []string{"13"}
+			connTokens = append(connTokens, "Upgrade")
+			c.Count("websocket_handshakes", 1)
+		}
 		// forwarding headers supplied by an upstream proxy
 		supplied := map[string]string{}
 		for _, name := range []string{"X-Forwarded-Proto", "X-Forwarded-Host", "X-Forwarded-Port", "X-Forwarded-Server", "X-Real-Ip", "X-Forwarded-For"} {
@@ -492,7 +501,7 @@ func c08Rewrite(c *Ctx) {
 				return
 			}
 		}
-		if v := got.get("Connection"); len(v) > 0 && strings.TrimSpace(v[0]) != "" && !strings.EqualFold(v[0], "close") {
+		if v := got.get("Connection"); !upgrade && len(v) > 0 && strings.TrimSpace(v[0]) != "" && !strings.EqualFold(v[0], "close") {
 			c.Violation("hop/request", sfmt("Connection header reached the backend with %q", v), desc)
 			return
 		}
@@ -539,6 +548,9 @@ func c08Rewrite(c *Ctx) {
 			}
 			g := got.get(name)
 			okv := len(g) == 1 && g[0] == want
+			if upgrade && name == "X-Forwarded-Proto" && !isSup && len(g) == 1 && (g[0] == map[string]string{"http": "ws", "https": "wss"}[scheme]) {
+				okv = true // for a websocket handshake ws/wss describes the incoming connection just as well
+			}
 			if name == "X-Forwarded-Server" && isSup && len(g) == 1 && (g[0] == sup || g[0] == hostname) {
 				okv = true
 			}
